@@ -14,6 +14,7 @@ def EnvOK (E : EvalEnv) (ctx : Ctx) (env : SatEnv) : Prop :=
   (∀ n, olderMet env n = true → E.csvOK (encodeNum n) = true) ∧
   (∀ n, afterMet env n = true → E.cltvOK (encodeNum n) = true)
 
+mutual
 /-- no digest of the expression is the hash of 32 zero bytes (the satisfier's dissatisfaction of
     a hash fragment). -/
 def zeroOK (E : EvalEnv) : Ms → Bool
@@ -21,7 +22,12 @@ def zeroOK (E : EvalEnv) : Ms → Bool
   | .wrap _ x => zeroOK E x
   | .bin _ x y => zeroOK E x && zeroOK E y
   | .andor x y z => zeroOK E x && zeroOK E y && zeroOK E z
+  | .thresh _ x xs => zeroOK E x && zeroOKL E xs
   | _ => true
+def zeroOKL (E : EvalEnv) : MsL → Bool
+  | .nil => true
+  | .cons x xs => zeroOK E x && zeroOKL E xs
+end
 
 section
 variable (E : EvalEnv) (ctx : Ctx) (env : SatEnv)
@@ -31,6 +37,142 @@ def SatInv (n : Ms) : Prop :=
   (∀ w, (inputs ctx env n).sat.stack = some w → Sat E n w.reverse) ∧
   (∀ w, (inputs ctx env n).dsat.stack = some w → Dsat E n w.reverse)
 
+/-- the candidates of every argument of a `thresh()` are table entries. -/
+def SatInvL : MsL → Prop
+  | .nil => True
+  | .cons x xs => SatInv E ctx env x ∧ SatInvL xs
+
+theorem sigInput_some {k : Key} {t : List Bytes} (h : (sigInput ctx env k).stack = some t) :
+    ∃ σ, t = [σ] ∧ offered ctx env k = some σ := by
+  unfold sigInput at h
+  cases ho : offered ctx env k with
+  | none => simp [ho, noWitness] at h
+  | some σ => simp [ho, element] at h; exact ⟨σ, h.symm, rfl⟩
+
+/-- `reached[j]` of a `multi_a()` over the keys `ks` read so far (from the last): `j` signatures. -/
+def RowInv (ks : List Key) (j : Nat) (i : Input) : Prop :=
+  ∀ w, i.stack = some w → SigRow E ks w.reverse j
+
+theorem rowInv_foldr (hE : EnvOK E ctx env) : ∀ (ks : List Key),
+    AllIdx (RowInv E ks) 0
+      (ks.foldr (fun key r => multiStep zeroPush r (sigInput ctx env key)) [noPushes])
+  | [] => by
+    refine ⟨?_, trivial⟩
+    intro w h; simp [noPushes] at h; subst h; exact .nil
+  | k :: ks => by
+    have ih := rowInv_foldr hE ks
+    simp only [List.foldr_cons]
+    have skip : ∀ j i, RowInv E ks j i → RowInv E (k :: ks) j (both i zeroPush) := by
+      intro j i hi w hw
+      obtain ⟨s, t, hs, ht, rfl⟩ := both_some hw
+      simp [zeroPush, element] at ht; subst ht
+      simpa using SigRow.skip k ks _ j (hi s hs)
+    have sign : ∀ j i, RowInv E ks j i → RowInv E (k :: ks) (j + 1) (both i (sigInput ctx env k)) := by
+      intro j i hi w hw
+      obtain ⟨s, t, hs, ht, rfl⟩ := both_some hw
+      obtain ⟨σ, rfl, ho⟩ := sigInput_some ctx env ht
+      simpa using SigRow.sign k ks σ _ j (hE.1 k σ ho) (hi s hs)
+    refine dpStep_idx (RowInv E ks) (RowInv E (k :: ks)) _ _ _ (fun a h => skip 0 a h) ?_
+      (fun i l h => sign i l h) _ ih
+    intro i p c hp hc w hw
+    rcases better_some hw with h | h
+    · exact skip (i + 1) c hc w h
+    · exact sign i p hp w h
+
+/-- `reached[j]` of a `multi()` over the keys `ps` read so far (from the first): the dummy and `j`
+    signatures, in key order. -/
+def SubInv (ps : List Key) (j : Nat) (i : Input) : Prop :=
+  ∀ w, i.stack = some w → ∃ sigs, w = [] :: sigs ∧ sigs.length = j ∧ SigSub E ps.reverse sigs.reverse
+
+theorem subInv_foldl (hE : EnvOK E ctx env) : ∀ (ks ps : List Key) (r : List Input),
+    AllIdx (SubInv E ps) 0 r →
+    AllIdx (SubInv E (ps ++ ks)) 0
+      (ks.foldl (fun r key => multiStep noPushes r (sigInput ctx env key)) r)
+  | [], ps, r, h => by simpa using h
+  | k :: ks, ps, r, h => by
+    simp only [List.foldl_cons]
+    have e : ps ++ k :: ks = (ps ++ [k]) ++ ks := by simp
+    rw [e]
+    refine subInv_foldl hE ks (ps ++ [k]) _ ?_
+    have skip : ∀ j i, SubInv E ps j i → SubInv E (ps ++ [k]) j (both i noPushes) := by
+      intro j i hi w hw
+      obtain ⟨s, t, hs, ht, rfl⟩ := both_some hw
+      simp [noPushes] at ht; subst ht
+      obtain ⟨sigs, rfl, hl, hsub⟩ := hi s hs
+      exact ⟨sigs, by simp, hl, by simpa using SigSub.skip k _ _ hsub⟩
+    have sign : ∀ j i, SubInv E ps j i → SubInv E (ps ++ [k]) (j + 1) (both i (sigInput ctx env k)) := by
+      intro j i hi w hw
+      obtain ⟨s, t, hs, ht, rfl⟩ := both_some hw
+      obtain ⟨σ, rfl, ho⟩ := sigInput_some ctx env ht
+      obtain ⟨sigs, rfl, hl, hsub⟩ := hi s hs
+      exact ⟨sigs ++ [σ], by simp, by simp [hl], by simpa using SigSub.sign k _ σ _ (hE.1 k σ ho) hsub⟩
+    refine dpStep_idx (SubInv E ps) (SubInv E (ps ++ [k])) _ _ _ (fun a h => skip 0 a h) ?_
+      (fun i l h => sign i l h) _ h
+    intro i p c hp hc w hw
+    rcases better_some hw with h | h
+    · exact skip (i + 1) c hc w h
+    · exact sign i p hp w h
+
+theorem multiDsat_stack : ∀ k, (multiDsat k).stack = some (List.replicate (k + 1) [])
+  | 0 => rfl
+  | k + 1 => by
+    simp only [multiDsat, both, multiDsat_stack k, zeroPush, element]
+    simp [List.replicate_succ']
+
+/-- `reached[j]` of a `thresh()` over the arguments `xs` read so far (from the last). -/
+def ListInv (xs : MsL) (j : Nat) (i : Input) : Prop :=
+  ∀ w, i.stack = some w → SatL E xs w.reverse j
+
+theorem listInv_step (x : Ms) (xs : MsL) (hx : SatInv E ctx env x) (r : List Input)
+    (h : AllIdx (ListInv E xs) 0 r) :
+    AllIdx (ListInv E (.cons x xs)) 0 (threshStepIn r (inputs ctx env x)) := by
+  have skip : ∀ j i, ListInv E xs j i → ListInv E (.cons x xs) j (both i (inputs ctx env x).dsat) := by
+    intro j i hi w hw
+    obtain ⟨s, t, hs, ht, rfl⟩ := both_some hw
+    simpa using SatL.dsat x xs _ _ j (hx.2 t ht) (hi s hs)
+  have sign : ∀ j i, ListInv E xs j i →
+      ListInv E (.cons x xs) (j + 1) (both i (inputs ctx env x).sat) := by
+    intro j i hi w hw
+    obtain ⟨s, t, hs, ht, rfl⟩ := both_some hw
+    simpa using SatL.sat x xs _ _ j (hx.1 t ht) (hi s hs)
+  refine dpStep_idx (ListInv E xs) (ListInv E (.cons x xs)) _ _ _ (fun a h => skip 0 a h) ?_
+    (fun i l h => sign i l h) _ h
+  intro i p c hp hc w hw
+  rcases better_some hw with h | h
+  · exact skip (i + 1) c hc w h
+  · exact sign i p hp w h
+
+theorem listInv_foldr : ∀ (xs : MsL), SatInvL E ctx env xs →
+    AllIdx (ListInv E xs) 0
+      ((inputsL ctx env xs).foldr (fun sub r => threshStepIn r sub) [noPushes])
+  | .nil, _ => by
+    refine ⟨?_, trivial⟩
+    intro w h; simp [noPushes] at h; subst h; exact .nil
+  | .cons x xs, h => by
+    simp only [inputsL, List.foldr_cons]
+    exact listInv_step E ctx env x xs h.1 _ (listInv_foldr xs h.2)
+
+/-- the dissatisfaction `_thresh_input` settles on: some count other than the threshold. -/
+theorem threshDsat_inv (xs : MsL) (k : Nat) : ∀ (r : List Input) (c : Nat) (acc : Input),
+    AllIdx (ListInv E xs) c r →
+    (∀ w, acc.stack = some w → ∃ j, j ≠ k ∧ SatL E xs w.reverse j) →
+    ∀ w, (threshDsat k c r acc).stack = some w → ∃ j, j ≠ k ∧ SatL E xs w.reverse j
+  | [], _, acc, _, ha => by simpa [threshDsat] using ha
+  | x :: r, c, acc, hr, ha => by
+    simp only [threshDsat]
+    refine threshDsat_inv xs k r (c + 1) _ hr.2 ?_
+    split
+    · exact ha
+    · rename_i hck
+      intro w hw
+      rcases better_some hw with h | h
+      · exact ha w h
+      · refine ⟨c, hck, hr.1 w ?_⟩
+        split at h
+        · exact h
+        · simpa using h
+
+mutual
 theorem satInv (hE : EnvOK E ctx env) (hS : SigsSmall ctx env) : ∀ (n : Ms), inS1 n = true →
     shaped ctx n = true → zeroOK E n = true → SatInv E ctx env n
   | .f0, _, _, _ => by
@@ -249,7 +391,64 @@ theorem satInv (hE : EnvOK E ctx env) (hS : SigsSmall ctx env) : ∀ (n : Ms), i
         simpa using Dsat.andor_y x y z _ _ (xs t ht) (yd s hs)
       · obtain ⟨s, t, hs, ht, rfl⟩ := both_some h
         simpa using Dsat.andor x y z _ _ (xd t ht) (zd s hs)
-  | .multi _ _, h, _, _ | .multi_a _ _, h, _, _ | .thresh _ _ _, h, _, _ => by simp [inS1] at h
+  | .multi k keys, _, hsh, _ => by
+    have hinv := subInv_foldl E ctx env hE keys [] [zeroPush]
+      ⟨fun w h => ⟨[], by simpa [zeroPush, element] using h.symm, rfl, .nil⟩, trivial⟩
+    constructor
+    · intro w h
+      simp only [inputs, multiInput, Bool.false_eq_true, if_false] at h
+      have := AllIdx_getD (SubInv E ([] ++ keys)) noWitness (fun _ w h => by simp [noWitness] at h)
+        0 _ k hinv
+      obtain ⟨sigs, rfl, hl, hsub⟩ := this w h
+      simp only [List.nil_append] at hsub
+      simpa using Sat.multi k keys sigs.reverse (by simp at hl ⊢; omega) hsub
+    · intro w h
+      simp only [inputs, multiInput, Bool.false_eq_true, if_false, multiDsat_stack] at h
+      cases h
+      simpa using Dsat.multi (E := E) k keys
+  | .multi_a k keys, _, hsh, _ => by
+    have hinv := rowInv_foldr E ctx env hE keys
+    have hget := fun j => AllIdx_getD (RowInv E keys) noWitness (fun _ w h => by simp [noWitness] at h)
+      0 _ j hinv
+    constructor
+    · intro w h
+      simp only [inputs, multiInput, if_true] at h
+      have := hget k w h
+      simp only [Nat.zero_add] at this
+      exact .multi_a k keys _ this
+    · intro w h
+      simp only [inputs, multiInput, if_true] at h
+      have := hget 0 w h
+      simp only [shaped, Bool.and_eq_true, decide_eq_true_eq] at hsh
+      exact .multi_a k keys _ 0 this (by omega)
+  | .thresh k x xs, hin, hsh, hz => by
+    simp only [inS1, Bool.and_eq_true] at hin
+    simp only [zeroOK, Bool.and_eq_true] at hz
+    simp only [shaped, Bool.and_eq_true] at hsh
+    have hx := satInv hE hS x hin.1 hsh.1.2 hz.1
+    have hxs := satInvL hE hS xs hin.2 hsh.2 hz.2
+    have hinv := listInv_step E ctx env x xs hx _ (listInv_foldr E ctx env xs hxs)
+    constructor
+    · intro w h
+      simp only [inputs, threshInput, List.foldr_cons] at h
+      have := AllIdx_getD (ListInv E (.cons x xs)) noWitness (fun _ w h => by simp [noWitness] at h)
+        0 _ k hinv w h
+      simp only [Nat.zero_add] at this
+      exact .thresh k x xs _ this
+    · intro w h
+      simp only [inputs, threshInput, List.foldr_cons] at h
+      obtain ⟨j, hj, hl⟩ := threshDsat_inv E (.cons x xs) k _ 0 noWitness hinv
+        (fun w h => by simp [noWitness] at h) w h
+      exact .thresh k x xs _ j hl hj
+theorem satInvL (hE : EnvOK E ctx env) (hS : SigsSmall ctx env) : ∀ (xs : MsL), inS1L xs = true →
+    shapedL ctx xs = true → zeroOKL E xs = true → SatInvL E ctx env xs
+  | .nil, _, _, _ => trivial
+  | .cons x xs, hin, hsh, hz => by
+    simp only [inS1L, Bool.and_eq_true] at hin
+    simp only [shapedL, Bool.and_eq_true] at hsh
+    simp only [zeroOKL, Bool.and_eq_true] at hz
+    exact ⟨satInv hE hS x hin.1 hsh.1 hz.1, satInvL hE hS xs hin.2 hsh.2 hz.2⟩
+end
 
 /-- `satisfy ⊆ Sat`: the witness the satisfier returns, read top first, is a listed satisfaction. -/
 theorem satisfy_in_Sat (hE : EnvOK E ctx env) (hS : SigsSmall ctx env) (n : Ms)
